@@ -1358,6 +1358,17 @@ pub fn c08(tier: Tier, caps: &Caps) -> Vec<FamilyReport> {
         &|i| c08_after_connack_rx(&mb[(i / 2) as usize], i % 2 == 1, WIDE_RX),
         &|i| json!({"phase": "after-connack", "bytes": mr::hex(&mb[(i / 2) as usize]), "fragmented": i % 2 == 1, "rx": WIDE_RX}),
     ));
+    // what a reason byte MEANS to the application: the variant the crate decodes each byte to, against the name MQTT 5
+    // gives that value (a table consistent with itself in both directions would pass every byte-level comparison)
+    out.push(sweep(
+        "C08-reason-codes-by-name",
+        "C08",
+        256,
+        caps,
+        json!({"cases": "every byte 0..=255 decoded with ReasonCode::from: the variant must be the one MQTT 5 (table 2-6) names for that value, Unknown for undefined values; and the variant must convert back to the same byte"}),
+        &|i| c08_reason_code(i as u8),
+        &|i| json!({"phase": "reason-code", "byte": i}),
+    ));
     // the four-byte band of the remaining length: a receive buffer of just over 2 MiB
     const HUGE_RX: usize = 2_097_152 + 64;
     let huge_rems = [2_097_151usize, 2_097_152, 2_097_153, 2_097_200];
@@ -1408,6 +1419,30 @@ pub fn c08(tier: Tier, caps: &Caps) -> Vec<FamilyReport> {
     out
 }
 
+pub fn c08_reason_code(b: u8) -> CaseOut {
+    guarded("C08", || {
+        let named = crate::d_c09::named_reasons();
+        let got = minimq::ReasonCode::from(b);
+        let mut viol = Vec::new();
+        match named.iter().find(|(_, _, v)| *v == b) {
+            Some((name, variant, _)) => {
+                if got != *variant {
+                    viol.push((format!("C08:reason-code-misnamed:{:#04x}", b), format!("byte {:#04x} is \"{}\" in MQTT 5 but decodes to {:?}", b, name, got)));
+                }
+                if u8::from(*variant) != b {
+                    viol.push((format!("C08:reason-code-misnamed:{:#04x}", b), format!("\"{}\" encodes to {:#04x}", name, u8::from(*variant))));
+                }
+            }
+            None => {
+                if got != minimq::ReasonCode::Unknown {
+                    viol.push((format!("C08:reason-code-misnamed:{:#04x}", b), format!("MQTT 5 defines no reason code {:#04x} but it decodes to {:?}", b, got)));
+                }
+            }
+        }
+        CaseOut { class: hash_of(&(named.iter().any(|(_, _, v)| *v == b))), viol }
+    })
+}
+
 pub fn replay_case(v: &Value) -> i32 {
     let name = v["direct"].as_str().unwrap_or("");
     let case = &v["case"];
@@ -1419,6 +1454,7 @@ pub fn replay_case(v: &Value) -> i32 {
             unhex(case["bytes"].as_str().unwrap_or(""))
         };
         match case["phase"].as_str().unwrap_or("") {
+            "reason-code" => c08_reason_code(case["byte"].as_u64().unwrap_or(0) as u8),
             "as-connack" => c08_as_connack_cfg(
                 &bytes,
                 case["rx"].as_u64().map(|v| v as usize).unwrap_or(C08_RX),
